@@ -375,6 +375,34 @@ fn check_run(c: &Case, obs: &Observed) -> Option<Viol> {
         return Some(v);
     }
     let snaps = parse_snaps(obs);
+    // in every snapshot (parent or child): a signal is blocked exactly while
+    // it is caught (SIGCHLD is excluded from the snapshots)
+    for (label, m) in &snaps {
+        let caught: std::collections::BTreeSet<i32> = m
+            .iter()
+            .filter(|(k, v)| k.starts_with("disp:") && v.as_str() == "Catch")
+            .filter_map(|(k, _)| k[5..].parse().ok())
+            .collect();
+        let blocked: std::collections::BTreeSet<i32> = m
+            .get("mask")
+            .map(|v| {
+                v.trim_matches(|c| c == '[' || c == ']')
+                    .split(',')
+                    .filter_map(|x| x.trim().parse().ok())
+                    .collect()
+            })
+            .unwrap_or_default();
+        if caught != blocked {
+            return Some((
+                "mask".into(),
+                "mask".into(),
+                format!(
+                    "snapshot {label} (pid {}): blocked signals {blocked:?} but caught signals {caught:?} - a signal must be blocked exactly while it has a command trap",
+                    m.get("@pid").cloned().unwrap_or_default()
+                ),
+            ));
+        }
+    }
     fn walk<'a>(t: &'a Test, out: &mut Vec<&'a Test>) {
         out.push(t);
         if let Some(n) = &t.nested {
